@@ -188,7 +188,7 @@ namespace Witness
 def scanW (s : Nat) (_m : Metrics) (p : Pos) : Option (Tok × Pos) × Nat :=
   if p.byte < 3 then (some (⟨p.byte % 2, 0⟩, ⟨p.byte + 1, 0, p.byte + 1⟩), s + 1) else (none, s)
 
-def RW : RunEnv := ⟨⟨scanW, fun _ _ => true⟩, []⟩
+def RW : RunEnv := ⟨⟨scanW, fun _ _ => true, fun _ b => ⟨b, 0, b⟩⟩, []⟩
 def mW : Metrics := ⟨.lf, 4⟩
 
 theorem scanW_ok : ScanOK RW.E mW 3 := by
